@@ -261,9 +261,13 @@ func (opts *ParseRealtimeOptions) timezoneOrUTC() *time.Location {
 }
 
 func ParseRealtime(content []byte, opts *ParseRealtimeOptions) (*Realtime, error) {
-	if opts.Extension == nil {
-		opts.Extension = extensions.NoExtension()
+	// Work on a copy of the options so that the value shared by the caller
+	// (possibly between concurrent calls) is never written.
+	localOpts := *opts
+	if localOpts.Extension == nil {
+		localOpts.Extension = extensions.NoExtension()
 	}
+	opts = &localOpts
 	feedMessage := &gtfsrt.FeedMessage{}
 	if err := proto.Unmarshal(content, feedMessage); err != nil {
 		return nil, fmt.Errorf("failed to parse input as a GTFS Realtime message: %s", err)
